@@ -317,9 +317,14 @@ impl Write for YWriter {
         Ok(())
     }
 }
-pub struct YReader<'a>(pub &'a [u8]);
+/// `.1`: this stream's data depends on another caller thread (its first read waits for it)
+pub struct YReader<'a>(pub &'a [u8], pub bool);
 impl<'a> Read for YReader<'a> {
     fn read(&mut self, buf: &mut [u8]) -> std::io::Result<usize> {
+        if self.1 {
+            self.1 = false;
+            tok::wait_for_lower_thread("Read::read waiting for data produced by another thread");
+        }
         yield_here(tok::Y_READ, "Read::read");
         let n = buf.len().min(self.0.len());
         buf[..n].copy_from_slice(&self.0[..n]);
@@ -878,7 +883,7 @@ where
             if a(2) % 2 == 1 {
                 let _ = G::proj(a(0) % G::nsub()).serialize(&mut w, c);
                 out.extend_from_slice(&w.0);
-                let mut r = YReader(&w.0);
+                let mut r = YReader(&w.0, a(3) % 3 == 1);
                 match G::deserialize(&mut r, c) {
                     Ok(p) => img_proj(&p, out),
                     Err(e) => out.extend_from_slice(format!("{:?}", e.kind()).as_bytes()),
@@ -886,7 +891,7 @@ where
             } else {
                 let _ = G::aff(a(0) % G::nsub()).serialize(&mut w, c);
                 out.extend_from_slice(&w.0);
-                let mut r = YReader(&w.0);
+                let mut r = YReader(&w.0, a(3) % 3 == 1);
                 match G::Affine::deserialize(&mut r, c) {
                     Ok(p) => img_aff::<G>(&p, out),
                     Err(e) => out.extend_from_slice(format!("{:?}", e.kind()).as_bytes()),
@@ -1054,7 +1059,7 @@ pub fn eval<'a>(op: &Op, sh: &Shared, rs: &RunShared, tl: &mut ThreadObjs<'a>) -
             let mut w = YWriter(vec![]);
             let _ = x.serialize(&mut w, true);
             out.extend_from_slice(&w.0);
-            let mut r = YReader(&w.0);
+            let mut r = YReader(&w.0, a(1) % 3 == 1);
             Fr::deserialize(&mut r, true).ok().img(&mut out);
         }
         "fq12_serdes" => {
@@ -1062,7 +1067,7 @@ pub fn eval<'a>(op: &Op, sh: &Shared, rs: &RunShared, tl: &mut ThreadObjs<'a>) -
             let mut w = YWriter(vec![]);
             let _ = x.serialize(&mut w, true);
             out.extend_from_slice(&w.0);
-            let mut r = YReader(&w.0);
+            let mut r = YReader(&w.0, a(1) % 3 == 1);
             Fq12::deserialize(&mut r, true).ok().img(&mut out);
         }
         "x_xmd_long" => {
